@@ -439,6 +439,37 @@ pub fn check(case: &Case19) -> Outcome {
                 out.viol(sig, detail);
                 return out;
             }
+            // parsing straight into the wrapper that certifies verification, through another serde format (JSON):
+            // accepted exactly when verification accepts the value
+            if let (Ok(js), Ok(v)) = (serde_json::to_string(&enc), verify_of(&enc)) {
+                let r = catch(|| serde_json::from_str::<flacenc::error::Verified<config::Encoder>>(&js).map(|v| CfgSpec::from_encoder(&v)).map_err(|e| format!("{e}")));
+                match r {
+                    Err(p) => {
+                        out.viol(format!("parse-panic:Verified:{}", normalise(&p.sig())), format!("{} at {}", p.msg, p.loc));
+                        return out;
+                    }
+                    Ok(Ok(spec)) => {
+                        if v.is_err() {
+                            out.viol("parsed-into-Verified-without-verification", format!("serde_json::from_str::<Verified<Encoder>> accepts a configuration that verify() rejects ({:?}): {js}", v.err()));
+                            return out;
+                        }
+                        if !differences(cfg, &spec).is_empty() {
+                            out.viol("round-trip-differs:Verified-via-json", differences(cfg, &spec).join("; "));
+                            return out;
+                        }
+                        out.class("json:Verified:accepted");
+                    }
+                    Ok(Err(e)) => {
+                        // JSON cannot carry NaN / infinity (written as null): such values are not judged
+                        let finite = cfg.window.map_or(true, |b| f32::from_bits(b).is_finite());
+                        if v.is_ok() && finite {
+                            out.viol("valid-configuration-rejected:Verified-via-json", format!("{e}: {js}"));
+                            return out;
+                        }
+                        out.class("json:Verified:rejected");
+                    }
+                }
+            }
             match (verify_of(&enc), verify_of(&back)) {
                 (Ok(a), Ok(b)) => {
                     if a.is_ok() != b.is_ok() {
